@@ -101,7 +101,7 @@ ALL_T = STRUCT_T + T.STRING_LEVEL
 @st.composite
 def _pairs(draw, tier):
     big = tier == "thorough"
-    s = draw(G.url_structs(max_segments=5 if big else 3, max_items=4 if big else 3, host_kw={"ip": True, "rootdot": True}))
+    s = draw(G.url_structs(max_segments=5 if big else 3, max_items=4 if big else 3, host_kw={"ip": True, "rootdot": True, "emptyhost": True}))
     dp = draw(st.sampled_from(["https", "https", "http"]))
     names = draw(st.lists(st.sampled_from(ALL_T), min_size=1, max_size=3, unique=True))
     # string-level transformations are applied last
@@ -129,7 +129,7 @@ def _pairs(draw, tier):
 
 def _idem_cases(tier):
     big = tier == "thorough"
-    return st.tuples(G.url_structs(max_segments=5 if big else 3, max_items=4 if big else 3, host_kw={"ip": True, "rootdot": True}), st.booleans(),
+    return st.tuples(G.url_structs(max_segments=5 if big else 3, max_items=4 if big else 3, host_kw={"ip": True, "rootdot": True, "emptyhost": True}), st.booleans(),
                      st.sampled_from(["https", "http"])).map(
         lambda v: {"kind": "idem", "url": _fix_edges(G.serialise(v[0])), "strip_fragment": v[1],
                    "default_protocol": v[2]})
